@@ -20,6 +20,8 @@ type c18kcfg struct {
 	ListenAddr string `dials:"ListenAddr" dialsalias:"BindAddr"`
 	MaxConns   int8   `dials:"MaxConns" dialsalias:"ConnLimit"`
 	LogLevel   string `dials:"LogLevel"`
+	// a set: the file chain presents it to the decoder as a list
+	Allowed map[string]struct{} `dials:"Allowed" dialsalias:"Whitelist"`
 }
 
 func (c *c18kcfg) ConfigPath() (string, bool) { return c.Cfg, c.Cfg != "" }
@@ -37,6 +39,10 @@ func (d *c18keydec) Decode(r io.Reader, t *dials.Type) (reflect.Value, error) {
 			continue
 		}
 		f := out.Field(i)
+		if f.Kind() == reflect.Slice {
+			f.Set(reflect.ValueOf(v).Convert(f.Type()))
+			continue
+		}
 		p := reflect.New(f.Type().Elem())
 		p.Elem().Set(reflect.ValueOf(v).Convert(f.Type().Elem()))
 		f.Set(p)
@@ -54,6 +60,9 @@ func HarnessC18FileKeys() {
 	pAddr := zzverif.Choose("addr", 4)
 	pConns := zzverif.Choose("conns", 4)
 	envConns := zzverif.Choose("envconns", 2) == 1
+	// the set leaf: 0 not in the file; 1 primary key with one member; 2 alias key with the
+	// explicitly empty list; 3 primary key with the empty list and alias key with a member
+	pAllowed := zzverif.Choose("allowed", 4)
 	conns := zzverif.Int8("conns_v")
 	kv := map[string]interface{}{"log_level": "file-level"}
 	if pAddr&1 != 0 {
@@ -71,7 +80,16 @@ func HarnessC18FileKeys() {
 	if envConns {
 		zzverif.Setenv("MAX_CONNS", "99")
 	}
-	def := c18kcfg{Cfg: path, ListenAddr: "default-addr", MaxConns: 1, LogLevel: "default-level"}
+	switch pAllowed {
+	case 1:
+		kv["allowed"] = []string{"a"}
+	case 2:
+		kv["whitelist"] = []string{}
+	case 3:
+		kv["allowed"] = []string{}
+		kv["whitelist"] = []string{"b"}
+	}
+	def := c18kcfg{Cfg: path, ListenAddr: "default-addr", MaxConns: 1, LogLevel: "default-level", Allowed: map[string]struct{}{"d": {}}}
 	tmpl := def
 	flagSrc, flagErr := dflag.NewSetWithArgs(dflag.DefaultFlagNameConfig(), &tmpl, nil)
 	if flagErr != nil {
@@ -87,7 +105,7 @@ func HarnessC18FileKeys() {
 	defer cancel()
 	dec := &c18keydec{kv: kv}
 	d, err := ConfigFileEnvFlagDecoderFactoryParams(ctx, &def, func(p string, _ Params[c18kcfg]) dials.Decoder { return dec }, params)
-	both := pAddr == 3 || pConns == 3
+	both := pAddr == 3 || pConns == 3 || pAllowed == 3
 	if err != nil {
 		zzverif.Assert(both, "C18 the ez entry point failed although the file names no leaf under both its names")
 		zzverif.Reached("c18-keys-both-error")
@@ -108,6 +126,16 @@ func HarnessC18FileKeys() {
 		zzverif.Assert(got.MaxConns == conns, "C18 the file layer is missing for a leaf the file names by its primary or alias name (in the file's casing)")
 	default:
 		zzverif.Assert(got.MaxConns == 1, "C18 a leaf the file does not name lost its default")
+	}
+	switch pAllowed {
+	case 0:
+		_, hasD := got.Allowed["d"]
+		zzverif.Assert(len(got.Allowed) == 1 && hasD, "C18 a set leaf the file does not name lost its default")
+	case 1:
+		_, hasA := got.Allowed["a"]
+		zzverif.Assert(len(got.Allowed) == 1 && hasA, "C18 the file layer is missing for a set leaf the file names")
+	case 2:
+		zzverif.Assert(len(got.Allowed) == 0, "C18 an explicitly empty list in the file did not override the default set (the file layer is missing for that leaf)")
 	}
 	zzverif.Reached("c18-keys-end")
 }
